@@ -239,7 +239,8 @@ fn score(cfg: &Cfg, e: &Ent, cands: &[&Ent], now: i64) -> (f64, f64) {
                 Some(t) => {
                     let t = t as f64;
                     let age = (now - e.born) as f64 / SEC as f64;
-                    let rem = |a: f64| (1.0 - (a / t)).clamp(0.0, 1.0);
+                    // (ttl = 0: nothing of the lifetime is ever left, every score is 0)
+                    let rem = |a: f64| if t == 0.0 { 0.0 } else { (1.0 - (a / t)).clamp(0.0, 1.0) };
                     if cfg.flavour == Flavour::Async && !cfg.age_exact {
                         let lo_age = (age - 1.0).max(0.0);
                         let hi_age = age + 1.0;
